@@ -68,6 +68,9 @@ type Case struct {
 	Ops    []Op   `json:"ops,omitempty"`
 	// Group attributes a cell to a recorded root cause (failure signature).
 	Group string `json:"group,omitempty"`
+	// Decoy: a second interpreter with other Options is created, loaded and
+	// used in the same process before the case runs on the first one.
+	Decoy bool `json:"decoy,omitempty"`
 }
 
 // ---------------------------------------------------------------------------
@@ -91,7 +94,7 @@ func (r *runner) close() {
 }
 
 func (r *runner) job(c *Case) *yrun.Job {
-	return &yrun.Job{Src: c.Src, Env: c.Env, Args: c.Args, Stdin: c.Stdin}
+	return &yrun.Job{Src: c.Src, Env: c.Env, Args: c.Args, Stdin: c.Stdin, Decoy: c.Decoy}
 }
 
 // worker runs the case in a worker subprocess.
@@ -754,6 +757,7 @@ func genEnvCase(t *rapid.T) *Case {
 		c.Ops = append(c.Ops, op)
 	}
 	c.Src = envSrc(c.Ops)
+	c.Decoy = rapid.Bool().Draw(t, "decoy")
 	return c
 }
 
@@ -921,7 +925,7 @@ func checkEnv(c *Case) verdict {
 	}
 	want := envModel(c.Env, c.Ops)
 	before := hostEnv()
-	o, _ := yrun.Execute(&yrun.Job{Src: c.Src, Env: c.Env}, 0)
+	o, _ := yrun.Execute(&yrun.Job{Src: c.Src, Env: c.Env, Decoy: c.Decoy}, 0)
 	after := hostEnv()
 	if before != after {
 		restoreHostEnv(before)
@@ -974,6 +978,11 @@ func run(ctx *vf.Ctx) {
 		if i%ctx.NShards != ctx.Shard {
 			continue
 		}
+		// every other stream and exit cell runs next to a second interpreter
+		c.Decoy = (c.Family == "streams" || c.Family == "exit") && (i/ctx.NShards)%2 == 1
+		if c.Decoy {
+			ctx.Class("cells-with-second-interpreter")
+		}
 		if cellKnown(c) {
 			ctx.Excluded(c.Group)
 			ctx.Class("cells-excluded:" + c.Family)
@@ -1015,6 +1024,9 @@ func run(ctx *vf.Ctx) {
 		c := genEnvCase(t)
 		ctx.Eval()
 		labels, nt := envLabels(c)
+		if c.Decoy {
+			labels = append(labels, "with-second-interpreter")
+		}
 		for _, l := range labels {
 			ctx.Class("env:" + l)
 		}
